@@ -127,6 +127,15 @@ pub fn check_tree(
             ));
         }
     }
+    // T4: in an edge-oriented tree the entry keyed by the root of the inner search is the origin edge itself (the inner
+    // search never labels its own source, so nothing else can legitimately sit there)
+    if let Some(oe) = origin_edge {
+        if let Some(b) = tree.get(&VertexId(root)) {
+            if b.edge_traversal.edge_id.0 != oe {
+                fails.push(format!("T4 the entry of vertex {root}, where the origin edge {oe} arrives, carries edge {} instead: the origin edge is not part of the tree", b.edge_traversal.edge_id.0));
+            }
+        }
+    }
     if !fails.is_empty() {
         fails.truncate(3);
         return fails;
